@@ -87,6 +87,8 @@ W['C13/singleton_enum'] = one(module(defs=[enum_def(True, 'E', u32, [a_int('sing
 W['C13/empty_enum'] = one(module(defs=[enum_def(True, 'E', u32, [], [])]), 'zero-variant-enum', ps=8)
 W['C13/dup_discr'] = one(module(defs=[enum_def(True, 'E', u32, [], [enum_stmt('A', e_int(1)), enum_stmt('B', e_int(1))])]), 'duplicate-discriminant', ps=8)
 W['C13/dup_field'] = one(module(defs=[T('T', [], [F('a', u32), F('a', u32)])]), 'duplicate-field', ps=8)
+W['C01/void_by_value'] = one(module(defs=[T('T', [a_int('align', 1)], [F('v', ty_id('void')), F('a', u8)])]), 'void-by-value', ps=8)
+W['C02/void_by_value'] = W['C01/void_by_value']
 W['C13/void_by_value'] = one(module(defs=[T('T', [a_int('align', 1)], [F('v', ty_id('void')), F('a', u8)])]), 'void-by-value', ps=8)
 
 W['C13/vfunc_static'] = one(module(defs=[T('T', [], [vftable([], [fn(True, 'count', [], [], u32)])])]), 'vfunc-without-receiver', ps=8)
